@@ -344,6 +344,24 @@ class Peer:
         self._neighbor = restart_neighbor
         self._delay.reset()
 
+    @staticmethod
+    def _replaced_routes(neighbor: 'Neighbor') -> list[Any]:
+        """The configured routes the RIB was last brought in line with.
+
+        A definition keeps the one it replaced (`previous`) until its routes have been applied to the
+        RIB. One which was replaced in its turn before that (a second reload while the session was
+        down, or while a re-establishment was pending) still holds its own: the RIB reflects the
+        oldest of them, and what the definitions in between removed has to be removed as well.
+        """
+        from exabgp.bgp.neighbor import Neighbor
+
+        oldest = neighbor.previous
+        if oldest is None:
+            return []
+        while isinstance(oldest.previous, Neighbor):
+            oldest = oldest.previous
+        return oldest.routes
+
     def reconfigure(self, restart_neighbor: 'Neighbor' | None = None) -> None:
         # we want to update the route which were in the configuration file
         self._neighbor = restart_neighbor
@@ -356,7 +374,7 @@ class Peer:
             # isn't running to process the _neighbor variable later.
             # GitHub issue #1126: stale adj-rib when neighbor offline during reload
             if self.fsm != FSM.ESTABLISHED and self.neighbor.rib:
-                previous = restart_neighbor.previous.routes if restart_neighbor.previous else []
+                previous = self._replaced_routes(restart_neighbor)
                 current = restart_neighbor.routes
                 self.neighbor.rib.outgoing.replace_reload(previous, current)
                 restart_neighbor.previous = None
@@ -712,7 +730,7 @@ class Peer:
         send_ka = KA(self.proto.connection.session, self.proto)
 
         # Initialize RIB with previous routes
-        previous = self.neighbor.previous.routes if self.neighbor.previous else []
+        previous = self._replaced_routes(self.neighbor)
         current = self.neighbor.routes
         self.neighbor.rib.outgoing.replace_restart(previous, current)
         self.neighbor.previous = None
@@ -729,7 +747,7 @@ class Peer:
 
                 # Handle configuration reload
                 if self._neighbor:
-                    previous = self._neighbor.previous.routes if self._neighbor.previous else []
+                    previous = self._replaced_routes(self._neighbor)
                     current = self._neighbor.routes
                     self.neighbor.rib.outgoing.replace_reload(previous, current)
                     self._neighbor.previous = None
